@@ -191,6 +191,21 @@ def r02_4(ctx) -> None:
             _aead_ctx(ctx, eng, D, cfg, calls)
         else:
             _cbc_hmac(ctx, eng, D, cfg, calls)
+        # whatever the idiom: a failed authentication must leave through an exception - no handler may complete normally and
+        # the function may not fall off its end (returning None as if it were plaintext)
+        okx = True
+        for h in [x for x in cfg.nodes if x.kind == "handler"]:
+            if cfg.exit in cfg.reachable(h):
+                ctx.fail("R02.4", D, h.ast, "an error caught during authenticated decryption (e.g. InvalidTag) can still complete normally: decrypt() would return "
+                         "instead of raising", construct=f"handler in {D.short} completes normally")
+                okx = False
+        for n0, lab in cfg.normal_exits():
+            if not (n0.kind == "stmt" and isinstance(n0.ast, ast.Return) and n0.ast.value is not None):
+                ctx.fail("R02.4", D, n0.ast if n0.ast is not None else D.node, "decrypt() can complete without returning the verified decryption result (falls off its end / bare return)",
+                         construct=f"fall-through exit of {D.short}")
+                okx = False
+        if okx:
+            ctx.ok("R02.4", f"{D.short} :: exits", "every normal exit is an explicit return of the verified result; no handler completes normally")
 
 
 def _oneshot(ctx, eng, D, cfg, calls) -> None:
